@@ -95,14 +95,22 @@ def run_opt(case):
     confs = [c for c in gene.cn_configs if c != dele]
     by = {c: natsorted(a for a in gene.alleles if gene.alleles[a].cn_config == c) for c in confs}
     confs = [c for c in confs if by[c]]
-    struct = [confs[i % len(confs)] if k else "1" for k, i in enumerate(case["struct"])]
+    struct = [confs[i % len(confs)] if (k or case.get("first_any")) else "1" for k, i in enumerate(case["struct"])]
     if "1" not in by:
         return Result([], ["no-default"], False)
+    forced = None
+    if case.get("all_fused"):
+        # directed: every copy is one fusion allele whose database definition lists a variant in the part of the gene it lacks
+        lostful = [(c, a) for c in confs for a in by[c]
+                   if any(not gene.has_coverage(a, m[0]) for mi in gene.alleles[a].minors.values() for m in set(gene.alleles[a].func_muts) | set(mi.neutral_muts))]
+        if lostful:
+            fc, forced = lostful[case["all_fused"] % len(lostful)]
+            struct = [fc] * len(struct)
     cn = CNSolution(gene, 0, struct)
     sel = []
     first = {}
     for c in struct:
-        a = by[c][rng.randrange(len(by[c]))]
+        a = forced or by[c][rng.randrange(len(by[c]))]
         mi = natsorted(gene.alleles[a].minors)
         pick = (a, mi[rng.randrange(len(mi))])
         if case.get("homo"):
@@ -110,7 +118,8 @@ def run_opt(case):
             pick = first.setdefault(c, pick)
         sel.append(pick)
     major_counts = collections.Counter(a for a, _ in sel)
-    copies = [(a, {tuple(m) for m in gen_evid.carried(gene, a, mn)}) for a, mn in sel]
+    # a haplotype shows an allele's variants only where the allele's structure keeps the gene
+    copies = [(a, {tuple(m) for m in gen_evid.carried(gene, a, mn) if gene.has_coverage(a, m[0])}) for a, mn in sel]
     sites = sorted(gene.mutations)
     extra = {}
     for j in case["extra"]:
@@ -172,6 +181,8 @@ def run_opt(case):
               "fused" if any(c != "1" for c in struct) else "default-only"]
     if novel:
         labels.append("major-call-has-novel-variant")
+    if any(cn.position_cn(m[0]) == 0 for a, mn in sel for m in gen_evid.carried(gene, a, mn)):
+        labels.append("called-allele-lists-variant-where-structure-has-no-copy")
     if len(majors) > 1:
         labels.append("two-major-calls")
         if novel and majors[-1][0].added == []:
@@ -335,9 +346,9 @@ def strategy(tier):
              "noisy": st.booleans(), "extra": st.lists(st.integers(0, 30), max_size=2), "drop": st.sampled_from([0, 0, 20]),
              "phases": st.sampled_from([0, 0, 6, 20]), "mms": st.just(1), "seed": st.integers(0, 10 ** 6),
              "twin_extra": st.booleans(), "homo": st.sampled_from([False, False, True]), "short": st.sampled_from([False, False, True]),
-             "novel": st.sampled_from([None, None, 0, 1, 2]), "multi": st.sampled_from([False, False, True]), "novel_last": st.booleans()}
+             "novel": st.sampled_from([None, None, 0, 1, 2]), "multi": st.sampled_from([False, False, True]), "novel_last": st.booleans(), "first_any": st.sampled_from([False, False, True]), "all_fused": st.sampled_from([0, 0, 0, 1, 2])}
         if g == "gen":
-            d["db"] = gen_db.db_specs(gaps=False, pseudo=True, force_sv=True, small=True, max_sites=5, max_alleles=5, twins=True)
+            d["db"] = gen_db.db_specs(gaps=False, pseudo=True, force_sv=True, small=True, max_sites=5, max_alleles=5, twins=True, keep_lost=True)
         return st.fixed_dictionaries(d)
 
     return st.sampled_from(["toy", "gen", "gen"]).flatmap(for_gene)
